@@ -35,6 +35,14 @@ def response_leaf(path, roles):
     return False
 
 
+def explicit_cover(S, absorbed, term, lt):
+    """A fixed-size array atom `xs[i]` is also covered when every element xs[0] .. xs[n-1] is absorbed individually
+    (a statically known small array iterated by an index / unrolled loop)."""
+    if term[0] != "E" or lt[0] != "array" or not isinstance(lt[2], int) or not 0 < lt[2] <= 16:
+        return False
+    return all(S.canon(("bytes", ("at", term[1], ("int", k)))) in absorbed for k in range(lt[2]))
+
+
 def run(rep):
     prog = rep.prog
     rep.rule("impl-coverage", "every ChallengeInput impl absorbs every atom of its type (proof types: every first-message atom), arrays by whole-array iteration")
@@ -86,7 +94,7 @@ def run(rep):
                 continue
             n += 1
             want = S.canon(("bytes", term))
-            if want not in absorbed:
+            if want not in absorbed and not explicit_cover(S, absorbed, term, lt):
                 missing.append(S.show(S.canon(term)) + " : " + ty_str(lt))
         if missing:
             rep.fail("impl-coverage", name, "%s does not absorb atom(s) %s of its own wire form; transcript = %s" % (
